@@ -10,6 +10,7 @@ import (
 	"fmt"
 	"net"
 	"net/netip"
+	"sort"
 	"strings"
 	"testing"
 	"time"
@@ -609,6 +610,98 @@ func TestVerifC04EcsHistory(t *testing.T) {
 
 		if st.WantSample() && len(hist) > 4 {
 			st.Sample(hist)
+		}
+	})
+}
+
+// ---------------------------------------------------------------------------
+// (c) real LRU stores, real time (see the simple cache's counterpart).
+
+func TestVerifC04EcsRealTime(t *testing.T) {
+	st := vstat.New("C04", "ecscache.realtime",
+		"rapid: K probes (kind, ttl 1-3 s, scoped or unscoped name, delay drawn around half-life, expiry and beyond) stored at once in the real LRU stores, each re-asked after its real delay; one-sided oracle on measured ages: served TTL <= bound(ttl, measured minimum age), and an answer whose measured minimum age exceeds its life must come from upstream; non-trivial = probe re-asked at age >= 0.4 s; distinct by (kind, zone, ttl, delay/100ms)",
+		"rt-hit", "rt-miss-after-expiry", "rt-late-hit")
+	st.Finish(t)
+
+	client := vc04Client{Remote: netip.MustParseAddr("203.0.113.1"), Country: "US"}
+	rapid.Check(t, func(t *rapid.T) {
+		up := &vc04EcsUpstream{calls: map[string]int{}}
+		h := vc04NewMw(0, false).Wrap(up)
+
+		type probe struct {
+			req    *dns.Msg
+			life   time.Duration
+			delay  time.Duration
+			stored time.Time
+			kind   vdns.Kind
+		}
+
+		var probes []*probe
+		add := func(kind vdns.Kind, ti int, zone string, delay time.Duration, label string) {
+			life := time.Duration(vdns.TTLs[ti]) * time.Second
+			if delay < 0 {
+				delay = 100 * time.Millisecond
+			}
+
+			req := (&dns.Msg{}).SetQuestion(vdns.Name(kind, ti, label+"."+zone), dns.TypeA)
+			probes = append(probes, &probe{req: req, life: life, delay: delay, kind: kind})
+		}
+
+		for i, n := 0, rapid.IntRange(4, 16).Draw(t, "probes"); i < n; i++ {
+			kind := rapid.SampledFrom([]vdns.Kind{vdns.KA, vdns.KA, vdns.KAMixed, vdns.KNX, vdns.KNodataSOA}).Draw(t, "kind")
+			ti := rapid.IntRange(0, 2).Draw(t, "ttlIdx")
+			life := time.Duration(vdns.TTLs[ti]) * time.Second
+			delay := rapid.SampledFrom([]time.Duration{400 * time.Millisecond, 600 * time.Millisecond, life - 550*time.Millisecond,
+				life - 450*time.Millisecond, life + 150*time.Millisecond, life + 600*time.Millisecond}).Draw(t, "delay")
+			add(kind, ti, rapid.SampledFrom([]string{"u.test.", "s.test."}).Draw(t, "zone"), delay, fmt.Sprintf("p%d", i))
+		}
+
+		add(vdns.KA, 0, "u.test.", 400*time.Millisecond, "f0")
+		add(vdns.KA, 1, "s.test.", 1500*time.Millisecond, "f1")
+		add(vdns.KA, 0, "s.test.", 1150*time.Millisecond, "f2")
+
+		for _, p := range probes {
+			vc04EcsExchange(t, h, client, p.req.Copy())
+			p.stored = time.Now()
+		}
+
+		sort.Slice(probes, func(i, j int) bool { return probes[i].delay < probes[j].delay })
+		for _, p := range probes {
+			if d := time.Until(p.stored.Add(p.delay)); d > 0 {
+				time.Sleep(d)
+			}
+
+			minAge := time.Since(p.stored)
+			before := up.total
+			resp := vc04EcsExchange(t, h, client, p.req.Copy())
+			hit := up.total == before
+			served, _ := vdns.MaxTTL(resp)
+			cls := "rt-miss"
+			switch {
+			case hit && minAge*2 >= p.life:
+				cls = "rt-late-hit"
+			case hit:
+				cls = "rt-hit"
+			case minAge > p.life:
+				cls = "rt-miss-after-expiry"
+			}
+
+			st.Case(fmt.Sprintf("%s/%s/%d", p.req.Question[0].Name, p.life, p.delay/(100*time.Millisecond)), cls)
+			if st.WantSample() && hit {
+				st.Sample(map[string]any{"name": p.req.Question[0].Name, "life_s": p.life.Seconds(), "min_age_ms": minAge.Milliseconds(), "served_ttl": served})
+			}
+
+			if !hit {
+				continue
+			}
+
+			if minAge > p.life {
+				t.Fatalf("real time: %s (life %s) served from cache at a measured age of at least %s", p.req.Question[0].Name, p.life, minAge)
+			}
+
+			if bound := vdns.Bound(uint32(p.life/time.Second), minAge); served > bound {
+				t.Fatalf("real time: %s (life %s) served TTL %d at a measured age of at least %s; bound %d", p.req.Question[0].Name, p.life, served, minAge, bound)
+			}
 		}
 	})
 }
